@@ -371,7 +371,7 @@ def gen_value(I: Impl, rng, var: dict, cls: str, maxlen=40, big=False):
         w, signed = INT_TYPES[ty]
         lo, hi = (-(1 << (8 * w - 1)), (1 << (8 * w - 1)) - 1) if signed else (0, (1 << (8 * w)) - 1)
         if ty == "BOOL":
-            return rng.choice([True, False, 0, 1, 255]), True
+            return rng.choice([True, False, 0, 1]), True
         c = rng.randrange(6)
         return (lo if c == 0 else hi if c == 1 else 0 if c == 2 else (-1 if signed else 1) if c == 3 else rng.randint(lo, hi)), True
     if ty == "F32":
@@ -724,6 +724,6 @@ def run(chk: Check):
         mini_universe(chk, "{0, 65}", 2, 2)
         real_templates(chk, 2, 30, 6)
     else:
-        mini_universe(chk, "{0, 65, 255}", 2, 2)
-        real_templates(chk, 24, 400, 40)
+        mini_universe(chk, "{0, 65, 255}", 3, 2)
+        real_templates(chk, 40, 600, 60)
     chk.cov["exhaustive"] = True
